@@ -34,7 +34,7 @@ def _factor(node, what):
     return ast.unparse(node.left), f
 
 
-def translate(repo_root='/repo'):
+def translate(repo_root=os.environ.get('VERIF_REPO', '/repo')):
     out = {}
     # ---- Profile.from_groove
     tp = ast.parse(open(os.path.join(repo_root, 'pyroll/core/profile/profile.py')).read())
@@ -149,7 +149,7 @@ def translate(repo_root='/repo'):
     return out
 
 
-def generate(repo_root='/repo'):
+def generate(repo_root=os.environ.get('VERIF_REPO', '/repo')):
     d = translate(repo_root)
     q = lambda f: f"({f.numerator} # {f.denominator})"      # noqa
     L = ["(* GENERATED by tools/py2coq/crosssec_tk.py from profile.py, helpers.py, hookimpls/profile.py. Do not edit. *)",
